@@ -27,8 +27,8 @@ PROPS = {
         design='DESIGN.md §5 C01'),
     'C02': dict(
         title='exact accounting', level='proof', templates=['l2'],
-        k_quick=['q_op_clear', 'q_op_retain', 'q_op_clone', 'q_drain', 'q_sub_realloc_grow', 'q_sub_remove_entry'],
-        k_thorough=['t_op_clear', 't_op_retain', 't_op_clone', 't_drain', 't_sub_realloc', 't_sub_remove_entry', 't_op_clone_diverge'],
+        k_quick=['q_op_clear', 'q_op_retain', 'q_op_clone', 'q_drain', 'q_sub_realloc_grow', 'q_sub_remove_entry', 'q_forget_drain'],
+        k_thorough=['t_op_clear', 't_op_retain', 't_op_clone', 't_drain', 't_sub_realloc', 't_sub_remove_entry', 't_op_clone_diverge_touch', 't_op_clone_diverge_clear', 't_op_clone_diverge_retain'],
         assumptions=[A_SUB, A_HB, A_DOUBLE, A_PURE, A_SIZE, A_ARITH, A_UNSAFE, A_KBOUND],
         design='DESIGN.md §5 C02'),
     'C03': dict(
@@ -62,8 +62,8 @@ PROPS = {
         design='DESIGN.md §5 C06'),
     'C07': dict(
         title='list/table coherence and memory safety', level='model_checking', templates=['l2'],
-        k_quick=SUB_Q + ['q_op_clear', 'q_op_retain', 'q_op_clone', 'q_drain', 'q_iter_link', 'q_sub_collide'],
-        k_thorough=SUB_T + ['t_op_clear', 't_op_retain', 't_op_clone', 't_drain', 't_iter_link', 't_op_clone_diverge'],
+        k_quick=SUB_Q + ['q_op_clear', 'q_op_retain', 'q_op_clone', 'q_drain', 'q_iter_link', 'q_sub_collide', 'q_forget_drain'],
+        k_thorough=SUB_T + ['t_op_clear', 't_op_retain', 't_op_clone', 't_drain', 't_iter_link', 't_op_clone_diverge_touch', 't_op_clone_diverge_clear', 't_op_clone_diverge_retain'],
         assumptions=[A_DOUBLE, A_HB, A_UNSAFE, A_KBOUND,
                      'caches with thousands of entries are not reached; composite public operations are covered through V (acct after each of them) over these L1 contracts',
                      'retain reads entry.prev from a bucket whose Entry was just moved out (bitwise intact); neither CBMC nor Miri flags it'],
@@ -109,7 +109,7 @@ PROPS = {
     'C14': dict(
         title='clone', level='model_checking', templates=[],
         k_quick=['q_op_clone', 'q_op_clone_small', 'q_op_clone_diverge_remove', 'q_op_clone_diverge_realloc', 'q_ledger_clone'],
-        k_thorough=['t_op_clone', 't_op_clone_diverge'],
+        k_thorough=['t_op_clone', 't_op_clone_diverge_touch', 't_op_clone_diverge_clear', 't_op_clone_diverge_retain'],
         assumptions=[A_DOUBLE, A_HB, A_UNSAFE, A_KBOUND], design='DESIGN.md §5 C14'),
     'C15': dict(
         title='retain', level='model_checking', templates=[],
@@ -117,7 +117,7 @@ PROPS = {
         k_thorough=['t_op_retain'],
         assumptions=[A_DOUBLE, A_HB, A_UNSAFE, A_KBOUND], design='DESIGN.md §5 C15'),
     'C16': dict(
-        title='panic safety (call-back-point invariant)', level='model_checking', templates=[],
+        title='panic safety (call-back-point invariant)', level='model_checking', templates=['l2'],
         k_quick=['q_cb_try_reallocate', 'q_cb_lookup_remove', 'q_cb_remove_ends', 'q_cb_clone', 'q_cb_retain', 'q_cb_insert_untracked'],
         k_thorough=[],
         assumptions=[A_DOUBLE, A_HB, A_UNSAFE, A_KBOUND,
@@ -139,8 +139,8 @@ PROPS = {
     'C20': dict(
         title='hashing work bounded', level='model_checking', templates=['l2'],
         k_quick=['q_hash_count_lookups', 'q_hash_count_zero', 'q_hash_count_remove_ends', 'q_hash_count_rebuild', 'q_hash_count_retain'],
-        k_thorough=['t_hash_count_insert', 't_hash_count_try_insert', 't_hash_count_set_max_size', 't_hash_count_mutate'],
-        assumptions=[A_DOUBLE, A_HB, A_KBOUND, 'independence of the cache size is NOT established: n <= 3 separates O(1) from a per-access rescan but not from e.g. O(log n)'],
+        k_thorough=['t_hash_count_set_max_size', 't_hash_count_mutate'],
+        assumptions=[A_DOUBLE, A_HB, A_KBOUND, A_SUB, 'hash counts are checked by Kani on L1 functions and V-unreachable operations only (n <= 3); for the composite L2 operations Verus proves the number of table rebuilds per call (ghost counter table.gen(): 0 for lookups, promotions, removals, evictions, mutate, set_max_size; <= 1 for reserve/try_reserve/shrink*; exactly 1 for an insertion iff the table refused), and the hash-routing preconditions; the composite Kani count harnesses t_hash_count_insert / t_hash_count_try_insert do not terminate within memory and are not part of any tier', 'independence of the cache size is established only in that form (rebuild count per call is size-independent; per-rebuild and per-departure hashing is bounded by Kani for n <= 3)'],
         design='DESIGN.md §5 C20'),
 }
 
